@@ -218,7 +218,9 @@ Definition class_ctx_ok (c : qclass) : bool :=
     && String.eqb (conv_quote (x_ctx_at c PGroup j)) (spec_alias_quote c)
     && String.eqb (conv_quote (x_ctx_at c POrder j)) (spec_alias_quote c)) [false; true]
   && Bool.eqb (x_group_ref c) (spec_group_alias_allowed c)
-  && Bool.eqb (x_order_ref c) (spec_order_alias_allowed c).
+  && Bool.eqb (x_order_ref c) (spec_order_alias_allowed c)
+  (* an element whose alias name is not in the select list is never replaced by a reference *)
+  && negb (x_group_ref_unselected c) && negb (x_order_ref_unselected c).
 
 (* does the alias of top-level select item [t] come out in the class's convention?  (Consumes constructors only) *)
 Definition top_ok (c : ctx) (t : term) : bool :=
